@@ -27,6 +27,44 @@ Proof.
       exfalso. apply Hn. apply mem_In. exact E.
 Qed.
 
+(* ------------------------------------------------------------ the specification's own null rule and padding
+   agree with the model's (the spec is written from the documentation, Model/Derive.v) *)
+Lemma doc_null_rule_v f v : doc_null_rule (vf_dwn f) (vf_ty f) v = deser_with_default f v.
+Proof. unfold doc_null_rule, deser_with_default. destruct v, (vf_dwn f); reflexivity. Qed.
+Lemma doc_null_rule_r f v : doc_null_rule (rl_dwn f) (rl_ty f) v = rdeser_with_default f v.
+Proof. unfold doc_null_rule, rdeser_with_default. destruct v, (rl_dwn f); reflexivity. Qed.
+
+Definition doc_field_value_m (f : vfield) (its : list (dbfield * cell)) : option cell :=
+  if vf_skip f then Some (default_cell (vf_ty f))
+  else match db_cell (vf_name f) its with
+       | None => Some (default_cell (vf_ty f))
+       | Some v => deser_with_default f v
+       end.
+Definition doc_row_field_value_m (f : rleaf) (its : list (dbfield * cell)) : option cell :=
+  if rl_skip f then Some (default_cell (rl_ty f))
+  else match db_cell (rl_name f) its with
+       | None => None
+       | Some v => rdeser_with_default f v
+       end.
+Lemma doc_field_value_eq f its : doc_field_value f its = doc_field_value_m f its.
+Proof.
+  unfold doc_field_value, doc_field_value_m. destruct (vf_skip f); [reflexivity|].
+  destruct (db_cell (vf_name f) its); [apply doc_null_rule_v|reflexivity].
+Qed.
+Lemma doc_row_field_value_eq f its : doc_row_field_value f its = doc_row_field_value_m f its.
+Proof.
+  unfold doc_row_field_value, doc_row_field_value_m. destruct (rl_skip f); [reflexivity|].
+  destruct (db_cell (rl_name f) its); [apply doc_null_rule_r|reflexivity].
+Qed.
+
+Lemma spec_items_udt db : forall cells, spec_items db cells = udt_items db cells.
+Proof.
+  unfold spec_items. induction db as [|c db IH]; intros cells; [now destruct cells|].
+  destruct cells as [|v cells]; cbn [udt_items List.length Nat.sub app combine].
+  - cbn [repeat combine]. f_equal. specialize (IH []). cbn [List.length app] in IH. now rewrite Nat.sub_0_r in IH.
+  - f_equal. apply IH.
+Qed.
+
 (* ------------------------------------------------------------ value fields: lookup *)
 
 Definition vbound (n : string) (f : vfield) : bool := negb (vf_skip f) && String.eqb (vf_name f) n.
@@ -859,7 +897,7 @@ Qed.
 Theorem deser_value_by_name_doc d db cells : vnodup (vd_fields d) ->
   doc_typeck_value_by_name d db = true ->
   outcome_of (gen_deser_value_by_name d db cells) =
-    match all_some (map (fun f => doc_field_value f (udt_items db cells)) (vd_fields d)) with
+    match all_some (map (fun f => doc_field_value_m f (udt_items db cells)) (vd_fields d)) with
     | Some vs => Accept vs
     | None => Reject
     end /\
@@ -879,7 +917,7 @@ Proof.
   - destruct L as (slots' & -> & Hl' & Sp).
     rewrite dv_finalize_by_name by assumption. split.
     + apply sequence_all_some. apply Forall2_map_same. intros f Hf.
-      unfold vfin, doc_field_value. destruct (vf_skip f) eqn:Sf; [reflexivity|].
+      unfold vfin, doc_field_value_m. destruct (vf_skip f) eqn:Sf; [reflexivity|].
       rewrite (Sp f Hf Sf), vstate_allnone by assumption. unfold slot_after.
       destruct (db_cell (vf_name f) its) as [v|] eqn:Dc.
       * (* the field is present: its item deserialized successfully *)
@@ -922,19 +960,19 @@ Proof.
     destruct Bad as ([[m ty] v] & Hin & Hb). unfold item_ok in Hb. cbn [fst snd] in Hb.
     destruct (vfind m fs) as [f|] eqn:F; [|discriminate].
     destruct (vfind_bound _ _ _ F) as [B Inf]. destruct (vbound_name' _ _ B) as [Nf Sf].
-    assert (Dv : doc_field_value f its = None).
-    { unfold doc_field_value. rewrite Sf.
+    assert (Dv : doc_field_value_m f its = None).
+    { unfold doc_field_value_m. rewrite Sf.
       rewrite forallb_forall in T2. specialize (T2 f Inf). rewrite Sf in T2. apply Nat.leb_le in T2.
       rewrite <- Names in T2.
       assert (Dc : db_cell m its = Some v).
       { apply (db_cell_unique m its ty v); [rewrite <- Nf; exact T2 | exact Hin]. }
       rewrite Nf, Dc.
       destruct (deser_with_default f v); [discriminate|reflexivity]. }
-    assert (X : all_some (map (fun f => doc_field_value f its) fs) = None).
+    assert (X : all_some (map (fun f => doc_field_value_m f its) fs) = None).
     { clear -Inf Dv. induction fs as [|g fs IH]; [contradiction|]. cbn [map all_some].
       destruct Inf as [->|Inf].
       - now rewrite Dv.
-      - destruct (doc_field_value g its); [|reflexivity]. now rewrite (IH Inf). }
+      - destruct (doc_field_value_m g its); [|reflexivity]. now rewrite (IH Inf). }
     now rewrite X.
 Qed.
 (* ------------------------------------------------------------ by-name values: placement and round trip *)
@@ -983,11 +1021,11 @@ Lemma roundtrip_field_value d db f : vnodup (vd_fields d) -> In f (vd_fields d) 
   val_ok (vf_ty f) (vf_val f) = true ->
   doc_ser_value_by_name d db = Accept (map (cellof (vd_fields d)) (drop_trailing_unbound (vd_fields d) db)) ->
   existsb (ser_fails (vd_fields d)) db = false ->
-  doc_field_value f (udt_items db (map (cellof (vd_fields d)) (drop_trailing_unbound (vd_fields d) db)))
+  doc_field_value_m f (udt_items db (map (cellof (vd_fields d)) (drop_trailing_unbound (vd_fields d) db)))
   = Some (back_value (map fst db) f).
 Proof.
   intros Hnd Hf Hv _ NoFail. set (fs := vd_fields d) in *.
-  unfold doc_field_value, back_value. destruct (vf_skip f) eqn:Sf; [reflexivity|].
+  unfold doc_field_value_m, back_value. destruct (vf_skip f) eqn:Sf; [reflexivity|].
   destruct (dtu_prefix fs db) as (rest & E & U).
   set (D := drop_trailing_unbound fs db) in *.
   rewrite E at 1. rewrite udt_items_app.
@@ -1518,7 +1556,7 @@ Qed.
 Theorem deser_row_by_name_doc ls cols cells : rnodup ls -> List.length cells = List.length cols ->
   doc_typeck_row_by_name ls cols = true ->
   outcome_of (gen_deser_row_by_name ls cols cells) =
-    match all_some (map (fun f => doc_row_field_value f (combine cols cells)) ls) with
+    match all_some (map (fun f => doc_row_field_value_m f (combine cols cells)) ls) with
     | Some vs => Accept vs
     | None => Reject
     end /\
@@ -1534,9 +1572,9 @@ Proof.
     unfold doc_typeck_row_by_name in T. apply andb_true_iff in T as [T1 _].
     rewrite forallb_forall in T1. specialize (T1 c Hit). destruct (rfind (fst c) ls); [discriminate|discriminate]. }
   pose proof (dr_dv_sim ls (combine cols cells) (map (fun _ => None) ls) (map_length _ _) Known) as S.
-  assert (Edoc : map (fun f => doc_row_field_value f (combine cols cells)) ls
-                 = map (fun f => doc_field_value (emb f) (combine cols cells)) ls).
-  { apply map_ext_in. intros f Hf. unfold doc_row_field_value, doc_field_value.
+  assert (Edoc : map (fun f => doc_row_field_value_m f (combine cols cells)) ls
+                 = map (fun f => doc_field_value_m (emb f) (combine cols cells)) ls).
+  { apply map_ext_in. intros f Hf. unfold doc_row_field_value_m, doc_field_value_m.
     change (vf_skip (emb f)) with (rl_skip f). destruct (rl_skip f) eqn:Sf; [reflexivity|].
     rewrite emb_name. destruct (db_cell (rl_name f) (combine cols cells)) eqn:Dc; [reflexivity|].
     exfalso. apply db_cell_none in Dc.
@@ -1546,7 +1584,7 @@ Proof.
     { clear -Hlen. revert cells Hlen. induction cols as [|c cols IH]; intros [|v cells] H; simpl in *; try congruence.
       f_equal. apply IH. congruence. }
     rewrite E in Dc. assert (mem (rl_name f) (map fst cols) = true) by (apply mem_count; lia). congruence. }
-  rewrite Edoc, <- (map_map emb (fun g => doc_field_value g (combine cols cells))).
+  rewrite Edoc, <- (map_map emb (fun g => doc_field_value_m g (combine cols cells))).
   destruct (dr_loop ls (map (fun _ => None) ls) (combine cols cells)) as [a|e1],
            (dv_loop (map emb ls) (map (fun _ => None) ls) (combine cols cells)) as [b|e2]; try contradiction.
   - subst b. rewrite dr_dv_finalize. split; assumption.
@@ -2193,7 +2231,7 @@ Proof.
   destruct (deser_row_by_name_doc ls cols _ Hnd Hlen Ht) as [D _].
   apply outcome_accept. rewrite D.
   rewrite (all_some_map _ rback_value); [reflexivity|].
-  intros f Hf. unfold doc_row_field_value, rback_value. destruct (rl_skip f) eqn:Sf; [reflexivity|].
+  intros f Hf. unfold doc_row_field_value_m, rback_value. destruct (rl_skip f) eqn:Sf; [reflexivity|].
   (* the column named like the field carries the field's value *)
   assert (Pres : mem (rl_name f) (map fst cols) = true).
   { unfold doc_typeck_row_by_name in Ht. apply andb_true_iff in Ht as [_ T2]. rewrite forallb_forall in T2.
@@ -2218,14 +2256,6 @@ Proof.
   rewrite X. apply rdeser_back. rewrite forallb_forall in Hv. now apply Hv.
 Qed.
 (* ------------------------------------------------------------ enforce_order, rows *)
-
-(* the leaves an enforce_order struct serializes, each with the skip_name_checks flag of the
-   struct that declares it *)
-Fixpoint oleaves (snc : bool) (f : rfield) : list (bool * rleaf) :=
-  match f with
-  | RLeaf l => [(snc, l)]
-  | RFlat _ snc' sub => flat_map (fun x => if rf_skip x then [] else oleaves snc' x) sub
-  end.
 
 Fixpoint io_flat (ls : list (bool * rleaf)) (cols : list dbfield) (out : list cell)
   : result err (list cell * list dbfield) :=
@@ -2435,7 +2465,7 @@ Proof.
 Qed.
 (* ------------------------------------------------------------ enforce_order: deserialize = documented values *)
 
-Definition vdoc_val (its : list (dbfield * cell)) (f : vfield) : option cell := doc_field_value f its.
+Definition vdoc_val (its : list (dbfield * cell)) (f : vfield) : option cell := doc_field_value_m f its.
 
 Lemma dvo_plain fs : forallb (fun f => vf_skip f || negb (vf_am f)) fs = true -> vnodup fs ->
   forall its, map (fun it => fst (fst it)) (firstn (List.length (nonskipped fs)) its) = map vf_name (nonskipped fs) ->
@@ -2445,7 +2475,7 @@ Lemma dvo_plain fs : forallb (fun f => vf_skip f || negb (vf_am f)) fs = true ->
 Proof.
   unfold nonskipped. induction fs as [|f fs IH]; intros Ham Hnd its Hn; [split; [reflexivity|discriminate]|].
   cbn [forallb] in Ham. apply andb_true_iff in Ham as [Hf Ham].
-  cbn [dvo_loop map all_some]. unfold vdoc_val at 1, doc_field_value.
+  cbn [dvo_loop map all_some]. unfold vdoc_val at 1, doc_field_value_m.
   cbn [filter] in Hn. destruct (vf_skip f) eqn:Sf; cbn [negb] in Hn.
   - destruct (IH Ham (vnodup_tail _ _ Hnd) its Hn) as [I1 I2]. split.
     + destruct (dvo_loop false fs its), (all_some (map (vdoc_val its) fs)); cbn [outcome_of] in *; congruence.
@@ -2456,7 +2486,7 @@ Proof.
     destruct (deser_with_default f v) as [x|]; [|split; [reflexivity|discriminate]].
     destruct (IH Ham (vnodup_tail _ _ Hnd) its Hn) as [I1 I2].
     assert (E : map (vdoc_val (((vf_name f, ty), v) :: its)) fs = map (vdoc_val its) fs).
-    { apply map_ext_in. intros g Hg. unfold vdoc_val, doc_field_value. destruct (vf_skip g) eqn:Sg; [reflexivity|].
+    { apply map_ext_in. intros g Hg. unfold vdoc_val, doc_field_value_m. destruct (vf_skip g) eqn:Sg; [reflexivity|].
       cbn [db_cell]. destruct (String.eqb (vf_name f) (vf_name g)) eqn:E; [|reflexivity].
       exfalso. assert (B : vbound (vf_name g) f = true) by (unfold vbound; now rewrite Sf, E).
       pose proof (vnodup_head_unique f fs _ Hnd B g Hg) as X. unfold vbound in X.
@@ -2469,7 +2499,7 @@ Qed.
 Theorem deser_value_ordered_doc d db cells : vordered_plain d = true -> vnodup (vd_fields d) ->
   doc_typeck_value_ordered d db = true ->
   outcome_of (gen_deser_value_ordered d db cells) =
-    match all_some (map (fun f => doc_field_value f (udt_items db cells)) (vd_fields d)) with
+    match all_some (map (fun f => doc_field_value_m f (udt_items db cells)) (vd_fields d)) with
     | Some vs => Accept vs
     | None => Reject
     end /\
@@ -2493,34 +2523,34 @@ Lemma dro_plain ls : rnodup ls -> forall fidx its,
   map (fun it => fst (fst it)) (firstn (List.length (filter (fun f => negb (rl_skip f)) ls)) its)
     = map rl_name (filter (fun f => negb (rl_skip f)) ls) ->
   outcome_of (dro_loop false fidx ls its) =
-    match all_some (map (fun f => doc_row_field_value f its) ls) with Some vs => Accept vs | None => Reject end /\
+    match all_some (map (fun f => doc_row_field_value_m f its) ls) with Some vs => Accept vs | None => Reject end /\
   dro_loop false fidx ls its <> Err EPanic.
 Proof.
   unfold rnodup. induction ls as [|f ls IH]; intros Hnd fidx its Hn; [split; [reflexivity|discriminate]|].
-  cbn [dro_loop map all_some]. unfold doc_row_field_value at 1.
+  cbn [dro_loop map all_some]. unfold doc_row_field_value_m at 1.
   cbn [filter] in Hn, Hnd. destruct (rl_skip f) eqn:Sf; cbn [negb] in Hn, Hnd.
   - destruct (IH Hnd (S fidx) its Hn) as [I1 I2]. split.
-    + destruct (dro_loop false (S fidx) ls its), (all_some (map (fun f => doc_row_field_value f its) ls)); cbn [outcome_of] in *; congruence.
+    + destruct (dro_loop false (S fidx) ls its), (all_some (map (fun f => doc_row_field_value_m f its) ls)); cbn [outcome_of] in *; congruence.
     + destruct (dro_loop false (S fidx) ls its); [discriminate|]. congruence.
   - cbn [List.length firstn map] in Hn, Hnd. destruct its as [|[[n ty] v] its]; [discriminate|].
     cbn [firstn map fst] in Hn. injection Hn as Hn0 Hn. subst n. cbn [negb andb]. rewrite String.eqb_refl. cbn [negb].
     cbn [db_cell]. rewrite String.eqb_refl. inversion Hnd as [|? ? Hnot Hnd']; subst.
     destruct (rdeser_with_default f v) as [x|]; [|split; [reflexivity|discriminate]].
     destruct (IH Hnd' (S fidx) its Hn) as [I1 I2].
-    assert (E : map (fun g => doc_row_field_value g (((rl_name f, ty), v) :: its)) ls
-                = map (fun g => doc_row_field_value g its) ls).
-    { apply map_ext_in. intros g Hg. unfold doc_row_field_value. destruct (rl_skip g) eqn:Sg; [reflexivity|].
+    assert (E : map (fun g => doc_row_field_value_m g (((rl_name f, ty), v) :: its)) ls
+                = map (fun g => doc_row_field_value_m g its) ls).
+    { apply map_ext_in. intros g Hg. unfold doc_row_field_value_m. destruct (rl_skip g) eqn:Sg; [reflexivity|].
       cbn [db_cell]. destruct (String.eqb (rl_name f) (rl_name g)) eqn:E; [|reflexivity].
       exfalso. apply String.eqb_eq in E. apply Hnot. rewrite E. apply in_map. apply filter_In. now rewrite Sg. }
     rewrite E. split.
-    + destruct (dro_loop false (S fidx) ls its), (all_some (map (fun f => doc_row_field_value f its) ls)); cbn [outcome_of] in *; congruence.
+    + destruct (dro_loop false (S fidx) ls its), (all_some (map (fun f => doc_row_field_value_m f its) ls)); cbn [outcome_of] in *; congruence.
     + destruct (dro_loop false (S fidx) ls its); [discriminate|]. congruence.
 Qed.
 
 Theorem deser_row_ordered_doc ls cols cells : rnodup ls -> List.length cells = List.length cols ->
   doc_typeck_row_ordered ls cols = true ->
   outcome_of (gen_deser_row_ordered false ls cols cells) =
-    match all_some (map (fun f => doc_row_field_value f (combine cols cells)) ls) with
+    match all_some (map (fun f => doc_row_field_value_m f (combine cols cells)) ls) with
     | Some vs => Accept vs
     | None => Reject
     end /\
@@ -2592,4 +2622,710 @@ Proof.
   cbn [app] in H. exists used, p, rest. destruct (vd_forbid d).
   - destruct rest as [|[n t] rest]; [|discriminate]. injection H as <-. repeat split; assumption || reflexivity.
   - injection H as <-. repeat split; try assumption. discriminate.
+Qed.
+
+(* ------------------------------------------------------------ statements with the specification's own functions *)
+
+Theorem deser_value_by_name_spec d db cells : vnodup (vd_fields d) ->
+  doc_typeck_value_by_name d db = true ->
+  outcome_of (gen_deser_value_by_name d db cells) =
+    match all_some (map (fun f => doc_field_value f (spec_items db cells)) (vd_fields d)) with
+    | Some vs => Accept vs
+    | None => Reject
+    end /\
+  gen_deser_value_by_name d db cells <> Err EPanic.
+Proof.
+  intros Hnd T. rewrite spec_items_udt.
+  rewrite (map_ext _ _ (fun f => doc_field_value_eq f (udt_items db cells))).
+  now apply deser_value_by_name_doc.
+Qed.
+
+Theorem deser_row_by_name_spec ls cols cells : rnodup ls -> List.length cells = List.length cols ->
+  doc_typeck_row_by_name ls cols = true ->
+  outcome_of (gen_deser_row_by_name ls cols cells) =
+    match all_some (map (fun f => doc_row_field_value f (combine cols cells)) ls) with
+    | Some vs => Accept vs
+    | None => Reject
+    end /\
+  gen_deser_row_by_name ls cols cells <> Err EPanic.
+Proof.
+  intros. rewrite (map_ext _ _ (fun f => doc_row_field_value_eq f (combine cols cells))).
+  now apply deser_row_by_name_doc.
+Qed.
+
+Theorem deser_value_ordered_spec d db cells : vordered_plain d = true -> vnodup (vd_fields d) ->
+  doc_typeck_value_ordered d db = true ->
+  outcome_of (gen_deser_value_ordered d db cells) =
+    match all_some (map (fun f => doc_field_value f (spec_items db cells)) (vd_fields d)) with
+    | Some vs => Accept vs
+    | None => Reject
+    end /\
+  gen_deser_value_ordered d db cells <> Err EPanic.
+Proof.
+  intros. rewrite spec_items_udt.
+  rewrite (map_ext _ _ (fun f => doc_field_value_eq f (udt_items db cells))).
+  now apply deser_value_ordered_doc.
+Qed.
+
+Theorem deser_row_ordered_spec ls cols cells : rnodup ls -> List.length cells = List.length cols ->
+  doc_typeck_row_ordered ls cols = true ->
+  outcome_of (gen_deser_row_ordered false ls cols cells) =
+    match all_some (map (fun f => doc_row_field_value f (combine cols cells)) ls) with
+    | Some vs => Accept vs
+    | None => Reject
+    end /\
+  gen_deser_row_ordered false ls cols cells <> Err EPanic.
+Proof.
+  intros. rewrite (map_ext _ _ (fun f => doc_row_field_value_eq f (combine cols cells))).
+  now apply deser_row_ordered_doc.
+Qed.
+
+(* ------------------------------------------------------------ skip_name_checks: positional binding *)
+
+Lemma svo_snc fs : forall db,
+  outcome_of (svo' true fs db) =
+  if forallb vf_am (skipn (List.length db) fs)
+  then match all_some (map ser_pair (combine fs db)) with
+       | Some cs => Accept (cs, skipn (List.length fs) db)
+       | None => Reject
+       end
+  else Reject.
+Proof.
+  induction fs as [|f fs IH]; intros db.
+  - cbn. now destruct db.
+  - cbn [svo' orb]. destruct db as [|[n ty] db].
+    + cbn [List.length skipn forallb combine map all_some].
+      destruct (vf_am f); cbn [negb andb]; [|reflexivity].
+      rewrite IH. cbn [List.length skipn combine map all_some].
+      destruct (forallb vf_am fs); [|reflexivity]. now destruct fs.
+    + cbn [List.length skipn combine map all_some]. unfold ser_pair at 1. cbn [fst snd].
+      destruct (ser_field (vf_ty f) (vf_val f) ty) as [cl|].
+      * specialize (IH db). destruct (svo' true fs db) as [[cs r]|e]; cbn [outcome_of] in *.
+        -- destruct (forallb vf_am (skipn (List.length db) fs)); [|discriminate].
+           destruct (all_some (map ser_pair (combine fs db))); [|discriminate]. now injection IH as -> ->.
+        -- destruct (forallb vf_am (skipn (List.length db) fs)); [|reflexivity].
+           destruct (all_some (map ser_pair (combine fs db))); [discriminate|reflexivity].
+      * now destruct (forallb vf_am (skipn (List.length db) fs)).
+Qed.
+
+Lemma skipn_nil_iff {A} (l : list A) k : is_nil (skipn k l) = (List.length l <=? k)%nat.
+Proof.
+  revert k; induction l as [|x l IH]; intros k; [now destruct k|].
+  destruct k; [reflexivity|]. cbn [skipn List.length]. apply IH.
+Qed.
+
+Lemma doc_ser_value_snc_eq d db : doc_ser_value_snc d db =
+  if doc_snc_shape_ok d db then
+    match all_some (map ser_pair (combine (nonskipped (vd_fields d)) db)) with
+    | Some cs => Accept cs
+    | None => Reject
+    end
+  else Reject.
+Proof. reflexivity. Qed.
+Lemma doc_typeck_value_snc_eq d db : doc_typeck_value_snc d db =
+  doc_snc_shape_ok d db && forallb acc_pair (combine (nonskipped (vd_fields d)) db).
+Proof. reflexivity. Qed.
+
+Theorem ser_value_snc_doc d db : vd_snc d = true ->
+  outcome_of (gen_ser_value_ordered d db) = doc_ser_value_snc d db.
+Proof.
+  rewrite doc_ser_value_snc_eq. unfold gen_ser_value_ordered, doc_snc_shape_ok. intros Hs. rewrite Hs. cbv zeta.
+  rewrite svo_loop_acc. pose proof (svo_snc (nonskipped (vd_fields d)) db) as P.
+  set (fs := nonskipped (vd_fields d)) in *.
+  destruct (forallb vf_am (skipn (List.length db) fs)); cbn [andb].
+  - destruct (svo' true fs db) as [[cs r]|e]; cbn [outcome_of] in P.
+    + destruct (all_some (map ser_pair (combine fs db))) as [cs'|]; [|discriminate].
+      injection P as -> ->. cbn [app].
+      destruct (vd_forbid d); cbn [negb orb].
+      * rewrite <- skipn_nil_iff. destruct (skipn (List.length fs) db) as [|[n t] r]; reflexivity.
+      * reflexivity.
+    + destruct (all_some (map ser_pair (combine fs db))); [discriminate|].
+      cbn [outcome_of]. now destruct (negb (vd_forbid d) || _).
+  - destruct (svo' true fs db) as [[cs r]|e]; cbn [outcome_of] in P; [discriminate|reflexivity].
+Qed.
+
+Lemma tvo_snc fs : forall idx db,
+  match tvo_loop true idx fs db with Ok rest => Some rest | Err _ => None end =
+  if forallb vf_am (skipn (List.length db) (nonskipped fs)) && forallb acc_pair (combine (nonskipped fs) db)
+  then Some (skipn (List.length (nonskipped fs)) db) else None.
+Proof.
+  unfold nonskipped. induction fs as [|f fs IH]; intros idx db.
+  - cbn. now destruct db.
+  - cbn [tvo_loop filter]. destruct (vf_skip f) eqn:Sf; cbn [negb]; [apply IH|].
+    destruct db as [|[n ty] db].
+    + cbn [List.length skipn forallb combine andb].
+      destruct (vf_am f); cbn [andb]; [|reflexivity].
+      rewrite IH. cbn [List.length skipn combine forallb]. rewrite !andb_true_r.
+      destruct (forallb vf_am _); [|reflexivity]. now destruct (filter _ fs).
+    + cbn [negb andb List.length skipn combine forallb]. unfold acc_pair at 1. cbn [fst snd].
+      destruct (accepts (vf_ty f) ty); cbn [andb]; [apply IH|]. now rewrite andb_false_r.
+Qed.
+
+Theorem typeck_value_snc_doc d db : vd_snc d = true ->
+  (gen_typeck_value_ordered d db = Ok tt <-> doc_typeck_value_snc d db = true).
+Proof.
+  rewrite doc_typeck_value_snc_eq. unfold gen_typeck_value_ordered, doc_snc_shape_ok. intros Hs. rewrite Hs. cbv zeta.
+  pose proof (tvo_snc (vd_fields d) O db) as P.
+  set (fs := nonskipped (vd_fields d)) in *.
+  (* the TooFewFields pre-check is implied by the shape condition *)
+  assert (Pre : forallb vf_am (skipn (List.length db) fs) = true ->
+                (List.length db <? List.length (filter vf_required (vd_fields d)))%nat = false).
+  { intros A. apply Nat.ltb_ge.
+    assert (E : List.length (filter vf_required (vd_fields d)) = List.length (filter (fun f => negb (vf_am f)) fs)).
+    { unfold fs, nonskipped, vf_required. clear. induction (vd_fields d) as [|f l IH]; [reflexivity|].
+      cbn [filter]. destruct (vf_skip f); cbn [negb andb]; [exact IH|].
+      cbn [filter]. destruct (negb (vf_am f)); cbn [List.length]; now rewrite IH. }
+    rewrite E. clear -A. revert A. generalize (List.length db) as k. induction fs as [|f fs IH]; intros k A; [cbn; lia|].
+    destruct k; cbn [skipn] in A.
+    - cbn [forallb] in A. apply andb_true_iff in A as [A1 A2]. cbn [filter]. rewrite A1. cbn [negb].
+      apply (IH O). now destruct fs.
+    - cbn [filter]. specialize (IH k A). destruct (negb (vf_am f)); cbn [List.length]; lia. }
+  destruct (forallb vf_am (skipn (List.length db) fs)) eqn:A; cbn [andb] in *.
+  - rewrite (Pre eq_refl).
+    destruct (tvo_loop true 0 (vd_fields d) db) as [r|e].
+    + destruct (forallb acc_pair (combine fs db)); [|discriminate]. injection P as ->.
+      destruct (vd_forbid d); cbn [negb orb andb]; [|tauto].
+      rewrite <- skipn_nil_iff, andb_true_r. destruct (skipn (List.length fs) db) as [|[n t] r]; cbn [is_nil]; split; congruence.
+    + destruct (forallb acc_pair (combine fs db)); [discriminate|]. rewrite andb_false_r. split; discriminate.
+  - destruct (List.length db <? _)%nat; [split; discriminate|].
+    destruct (tvo_loop true 0 (vd_fields d) db); [discriminate|]. split; discriminate.
+Qed.
+
+Lemma dvo_snc fs : forall its,
+  forallb vf_am (skipn (List.length its) (nonskipped fs)) = true ->
+  outcome_of (dvo_loop true fs its) =
+    match all_some (doc_positional fs its) with Some vs => Accept vs | None => Reject end /\
+  dvo_loop true fs its <> Err EPanic.
+Proof.
+  unfold nonskipped. induction fs as [|f fs IH]; intros its A; [split; [reflexivity|discriminate]|].
+  cbn [dvo_loop doc_positional filter] in *. destruct (vf_skip f) eqn:Sf; cbn [negb] in A.
+  - destruct (IH its A) as [I1 I2]. cbn [all_some]. split.
+    + destruct (dvo_loop true fs its), (all_some (doc_positional fs its)); cbn [outcome_of] in *; congruence.
+    + destruct (dvo_loop true fs its); [discriminate|congruence].
+  - destruct its as [|[[n ty] v] its].
+    + cbn [List.length skipn forallb] in A. apply andb_true_iff in A as [A1 A2]. rewrite A1.
+      destruct (IH [] ltac:(cbn; now destruct (filter _ fs))) as [I1 I2]. cbn [all_some]. split.
+      * destruct (dvo_loop true fs []), (all_some (doc_positional fs [])); cbn [outcome_of] in *; congruence.
+      * destruct (dvo_loop true fs []); [discriminate|congruence].
+    + cbn [orb List.length skipn] in *. rewrite doc_null_rule_v. cbn [all_some].
+      destruct (deser_with_default f v) as [x|]; [|split; [reflexivity|discriminate]].
+      destruct (IH its A) as [I1 I2]. split.
+      * destruct (dvo_loop true fs its), (all_some (doc_positional fs its)); cbn [outcome_of] in *; congruence.
+      * destruct (dvo_loop true fs its); [discriminate|congruence].
+Qed.
+
+Theorem deser_value_snc_doc d db cells : vd_snc d = true -> doc_typeck_value_snc d db = true ->
+  outcome_of (gen_deser_value_ordered d db cells) =
+    match all_some (doc_positional (vd_fields d) (spec_items db cells)) with
+    | Some vs => Accept vs
+    | None => Reject
+    end /\
+  gen_deser_value_ordered d db cells <> Err EPanic.
+Proof.
+  unfold gen_deser_value_ordered, doc_typeck_value_snc, doc_snc_shape_ok. intros Hs T. rewrite Hs, spec_items_udt.
+  apply dvo_snc. apply andb_true_iff in T as [T _]. apply andb_true_iff in T as [T _].
+  assert (E : List.length (udt_items db cells) = List.length db).
+  { rewrite <- (map_length fst), udt_items_fst. reflexivity. }
+  now rewrite E.
+Qed.
+
+(* ------------------------------------------------------------ rows, enforce_order, any skip_name_checks mix *)
+
+Definition oser (lc : (bool * rleaf) * dbfield) : option cell :=
+  ser_field (rl_ty (snd (fst lc))) (rl_val (snd (fst lc))) (snd (snd lc)).
+
+Lemma io_gen ls : forall cols out,
+  outcome_of (io_flat ls cols out) =
+  if (List.length ls <=? List.length cols)%nat && forallb oname_ok (combine ls cols)
+  then match all_some (map oser (combine ls cols)) with
+       | Some cs => Accept (out ++ cs, skipn (List.length ls) cols)
+       | None => Reject
+       end
+  else Reject.
+Proof.
+  induction ls as [|[snc l] ls IH]; intros cols out; [cbn; now rewrite app_nil_r|].
+  cbn [io_flat in_order_field List.length]. destruct cols as [|[n ty] cols]; [reflexivity|].
+  cbn [List.length combine forallb map all_some skipn]. unfold oname_ok at 1, oser at 1. cbn [fst snd].
+  change (S (List.length ls) <=? S (List.length cols))%nat with (List.length ls <=? List.length cols)%nat.
+  destruct snc; cbn [negb andb orb].
+  - destruct (ser_field (rl_ty l) (rl_val l) ty) as [cl|].
+    + rewrite IH. destruct ((List.length ls <=? List.length cols)%nat && _); [|reflexivity].
+      destruct (all_some (map oser (combine ls cols))); [|reflexivity]. now rewrite <- app_assoc.
+    + now destruct ((List.length ls <=? List.length cols)%nat && _).
+  - destruct (String.eqb n (rl_name l)); cbn [negb andb].
+    + destruct (ser_field (rl_ty l) (rl_val l) ty) as [cl|].
+      * rewrite IH. destruct ((List.length ls <=? List.length cols)%nat && _); [|reflexivity].
+        destruct (all_some (map oser (combine ls cols))); [|reflexivity]. now rewrite <- app_assoc.
+      * now destruct ((List.length ls <=? List.length cols)%nat && _).
+    + now rewrite andb_false_r.
+Qed.
+
+Lemma doc_ser_row_ordered_gen_eq d cols : doc_ser_row_ordered_gen d cols =
+  if (List.length cols =? List.length (rd_oleaves d))%nat && forallb oname_ok (combine (rd_oleaves d) cols) then
+    match all_some (map oser (combine (rd_oleaves d) cols)) with
+    | Some cs => Accept cs
+    | None => Reject
+    end
+  else Reject.
+Proof. reflexivity. Qed.
+
+Theorem ser_row_ordered_gen_doc d cols :
+  outcome_of (gen_ser_row_ordered d cols) = doc_ser_row_ordered_gen d cols.
+Proof.
+  rewrite doc_ser_row_ordered_gen_eq. unfold gen_ser_row_ordered. rewrite in_order_flat.
+  fold (rd_oleaves d). set (ls := rd_oleaves d). pose proof (io_gen ls cols []) as P.
+  destruct (io_flat ls cols []) as [[o c]|e]; cbn [outcome_of] in P.
+  - destruct (List.length ls <=? List.length cols)%nat eqn:L1; cbn [andb] in P; [|discriminate].
+    destruct (forallb oname_ok (combine ls cols)) eqn:N; [|discriminate].
+    destruct (all_some (map oser (combine ls cols))) as [cs|]; [|discriminate].
+    injection P as -> ->. cbn [app]. rewrite andb_true_r.
+    pose proof (skipn_nil_iff cols (List.length ls)) as SN.
+    destruct (skipn (List.length ls) cols) as [|[n t] r]; cbn [is_nil] in SN.
+    + symmetry in SN. apply Nat.leb_le in SN, L1.
+      assert (E : (List.length cols =? List.length ls)%nat = true) by (apply Nat.eqb_eq; lia). now rewrite E.
+    + symmetry in SN. apply Nat.leb_gt in SN.
+      assert (E : (List.length cols =? List.length ls)%nat = false) by (apply Nat.eqb_neq; lia). now rewrite E.
+  - destruct (List.length cols =? List.length ls)%nat eqn:E; [|reflexivity]. apply Nat.eqb_eq in E.
+    rewrite E, Nat.leb_refl in P. cbn [andb] in *.
+    destruct (forallb oname_ok (combine ls cols)); [|reflexivity].
+    destruct (all_some (map oser (combine ls cols))); [discriminate|reflexivity].
+Qed.
+
+Lemma tro_snc ls : forall fidx cidx cols,
+  List.length cols = List.length (filter (fun f => negb (rl_skip f)) ls) ->
+  (tro_loop true fidx cidx ls cols = Ok tt <->
+   forallb racc_pair (combine (filter (fun f => negb (rl_skip f)) ls) cols) = true) /\
+  tro_loop true fidx cidx ls cols <> Err EPanic.
+Proof.
+  induction ls as [|l ls IH]; intros fidx cidx cols Hlen.
+  - destruct cols; [|discriminate]. cbn. split; [tauto|discriminate].
+  - cbn [tro_loop filter] in *. destruct (rl_skip l); cbn [negb] in *; [now apply IH|].
+    cbn [List.length] in Hlen. destruct cols as [|[n ty] cols]; [discriminate|].
+    cbn [negb andb combine forallb]. unfold racc_pair at 1. cbn [fst snd].
+    destruct (accepts (rl_ty l) ty); cbn [andb].
+    + apply IH. cbn in Hlen. congruence.
+    + split; [split; discriminate|discriminate].
+Qed.
+
+Theorem typeck_row_snc_doc ls cols :
+  (gen_typeck_row_ordered true ls cols = Ok tt <-> doc_typeck_row_snc ls cols = true) /\
+  gen_typeck_row_ordered true ls cols <> Err EPanic.
+Proof.
+  unfold gen_typeck_row_ordered, doc_typeck_row_snc. cbv zeta.
+  change (fun lc : rleaf * (string * dty) => accepts (rl_ty (fst lc)) (snd (snd lc))) with racc_pair.
+  destruct (List.length cols =? _)%nat eqn:L; cbn [andb].
+  - apply Nat.eqb_eq in L. exact (tro_snc ls O O cols L).
+  - split; [split; discriminate|discriminate].
+Qed.
+
+Lemma dro_snc ls : forall fidx its,
+  List.length its = List.length (filter (fun f => negb (rl_skip f)) ls) ->
+  outcome_of (dro_loop true fidx ls its) =
+    match all_some (doc_row_positional ls its) with Some vs => Accept vs | None => Reject end /\
+  dro_loop true fidx ls its <> Err EPanic.
+Proof.
+  induction ls as [|f ls IH]; intros fidx its Hl; [split; [reflexivity|discriminate]|].
+  cbn [dro_loop doc_row_positional filter] in *. destruct (rl_skip f); cbn [negb] in Hl.
+  - destruct (IH (S fidx) its Hl) as [I1 I2]. cbn [all_some]. split.
+    + destruct (dro_loop true (S fidx) ls its), (all_some (doc_row_positional ls its)); cbn [outcome_of] in *; congruence.
+    + destruct (dro_loop true (S fidx) ls its); [discriminate|congruence].
+  - destruct its as [|[[n ty] v] its]; [discriminate|]. cbn [negb andb]. rewrite doc_null_rule_r. cbn [all_some].
+    destruct (rdeser_with_default f v) as [x|]; [|split; [reflexivity|discriminate]].
+    destruct (IH (S fidx) its ltac:(cbn in Hl; congruence)) as [I1 I2]. split.
+    + destruct (dro_loop true (S fidx) ls its), (all_some (doc_row_positional ls its)); cbn [outcome_of] in *; congruence.
+    + destruct (dro_loop true (S fidx) ls its); [discriminate|congruence].
+Qed.
+
+Theorem deser_row_snc_doc ls cols cells : List.length cells = List.length cols ->
+  doc_typeck_row_snc ls cols = true ->
+  outcome_of (gen_deser_row_ordered true ls cols cells) =
+    match all_some (doc_row_positional ls (combine cols cells)) with
+    | Some vs => Accept vs
+    | None => Reject
+    end /\
+  gen_deser_row_ordered true ls cols cells <> Err EPanic.
+Proof.
+  unfold gen_deser_row_ordered, doc_typeck_row_snc. cbv zeta. intros Hlen T.
+  apply andb_true_iff in T as [T _]. apply Nat.eqb_eq in T.
+  apply dro_snc. rewrite combine_length, Hlen, Nat.min_id. exact T.
+Qed.
+
+(* ------------------------------------------------------------ enforce_order + allow_missing: longest match *)
+
+(* what the generated cursor loop binds, names only *)
+Fixpoint gused (fs : list vfield) (db : list dbfield) : option (list vfield) :=
+  match fs with
+  | [] => Some []
+  | f :: fs' =>
+      match db with
+      | (n, _) :: db' =>
+          if String.eqb n (vf_name f) then option_map (cons f) (gused fs' db')
+          else if vf_am f then gused fs' db else None
+      | [] => if vf_am f then gused fs' [] else None
+      end
+  end.
+
+Lemma subseq_In {A} (u l : list A) x : subseq u l -> In x u -> In x l.
+Proof. induction 1; intros Hin; [assumption| |right; auto]. destruct Hin as [->|Hin]; [now left|right; auto]. Qed.
+
+Lemma subseqs_spec {A} (l : list A) u : In u (subseqs l) <-> subseq u l.
+Proof.
+  revert u; induction l as [|x l IH]; intros u; cbn [subseqs].
+  - split; [intros [<-|[]]; constructor|]. intros H. inversion H. now left.
+  - rewrite in_app_iff, in_map_iff. split.
+    + intros [(t & <- & Ht)|H]; [apply subseq_take; now apply IH|apply subseq_skip; now apply IH].
+    + intros H. inversion H; subst; [left; eexists; split; [reflexivity|now apply IH]|right; now apply IH].
+Qed.
+
+Lemma names_prefix_some ns db p rest : names_prefix ns db = Some (p, rest) ->
+  ns = map fst (firstn (List.length ns) db) /\ List.length p = List.length ns.
+Proof.
+  intros H. destruct (names_prefix_spec _ _ _ _ H) as [-> <-]. rewrite map_length, firstn_app, Nat.sub_diag, firstn_all.
+  cbn [firstn]. now rewrite app_nil_r.
+Qed.
+
+Lemma gused_sound fs : forall db g, gused fs db = Some g ->
+  subseq g fs /\ (forall f, In f fs -> ~ In f g -> vf_am f = true) /\
+  exists p rest, names_prefix (map vf_name g) db = Some (p, rest).
+Proof.
+  induction fs as [|f fs IH]; intros db g H; cbn [gused] in H.
+  - injection H as <-. repeat split; [constructor|intros f []|]. exists [], db. reflexivity.
+  - assert (Skip : forall db0 g0, vf_am f = true -> gused fs db0 = Some g0 ->
+             subseq g0 (f :: fs) /\ (forall h, In h (f :: fs) -> ~ In h g0 -> vf_am h = true) /\
+             exists p rest, names_prefix (map vf_name g0) db0 = Some (p, rest)).
+    { intros db0 g0 Am H0. destruct (IH _ _ H0) as (S & M & P). repeat split; [now constructor| |exact P].
+      intros h [<-|Hh] Hn; [assumption|now apply M]. }
+    destruct db as [|[n ty] db].
+    + destruct (vf_am f) eqn:Am; [|discriminate]. now apply Skip.
+    + destruct (String.eqb n (vf_name f)) eqn:E.
+      * destruct (gused fs db) as [g'|] eqn:G; [|discriminate]. injection H as <-.
+        destruct (IH _ _ G) as (S & M & p & rest & P). repeat split.
+        -- now constructor.
+        -- intros h [<-|Hh] Hn; [exfalso; apply Hn; now left|]. apply M; [assumption|]. intros X. apply Hn. now right.
+        -- exists ((n, ty) :: p), rest. cbn [map names_prefix]. now rewrite E, P.
+      * destruct (vf_am f) eqn:Am; [|discriminate]. now apply Skip.
+Qed.
+
+Lemma forallb_ext_in' {A} (p q : A -> bool) l : (forall x, In x l -> p x = q x) -> forallb p l = forallb q l.
+Proof.
+  induction l as [|x l IH]; intros H; [reflexivity|]. cbn [forallb]. rewrite (H x) by now left.
+  f_equal. apply IH. intros y Hy. apply H. now right.
+Qed.
+
+Lemma covers_tail f fs (ns : list string) : ~ In (vf_name f) (map vf_name fs) ->
+  forallb (fun g => vf_am g || mem (vf_name g) (vf_name f :: ns)) fs =
+  forallb (fun g => vf_am g || mem (vf_name g) ns) fs.
+Proof.
+  intros Hn. apply forallb_ext_in'. intros g Hg. f_equal. unfold mem. cbn [existsb].
+  destruct (String.eqb (vf_name g) (vf_name f)) eqn:E; [|reflexivity].
+  exfalso. apply String.eqb_eq in E. apply Hn. rewrite <- E. now apply in_map.
+Qed.
+
+(* the cursor loop finds a selection at least as long as any admissible one *)
+Lemma gused_complete fs : NoDup (map vf_name fs) -> forall u db, subseq u fs ->
+  ordered_sel_ok fs u db = true -> exists g, gused fs db = Some g /\ (List.length u <= List.length g)%nat.
+Proof.
+  unfold ordered_sel_ok. induction fs as [|f fs IH]; intros HN u db S OK.
+  - inversion S; subst. exists []. split; [reflexivity|cbn; lia].
+  - cbn [map] in HN. inversion HN as [|? ? Hnot HN']; subst.
+    apply andb_true_iff in OK as [C P]. cbn [forallb] in C. apply andb_true_iff in C as [Cf C].
+    inversion S as [|x u' l' S'|x u0 l' S']; subst.
+    + (* the selection takes f *)
+      cbn [map] in P, C. rewrite covers_tail in C by assumption.
+      cbn [names_prefix] in P. destruct db as [|[n ty] db]; [discriminate|].
+      destruct (String.eqb n (vf_name f)) eqn:E; [|discriminate].
+      destruct (names_prefix (map vf_name u') db) as [[p r]|] eqn:N; [|discriminate].
+      destruct (IH HN' u' db S' ltac:(now rewrite C, N)) as (g' & G & L).
+      exists (f :: g'). cbn [gused]. rewrite E, G. split; [reflexivity|cbn; lia].
+    + (* the selection leaves f out: f is allow_missing *)
+      assert (Am : vf_am f = true).
+      { destruct (vf_am f); [reflexivity|]. cbn [orb] in Cf. apply mem_In in Cf. exfalso. apply Hnot.
+        apply in_map_iff in Cf as (x & Ex & Hx). rewrite <- Ex. apply in_map. now apply (subseq_In _ _ _ S'). }
+      cbn [gused]. destruct db as [|[n ty] db].
+      * rewrite Am. apply IH; try assumption. now rewrite C, P.
+      * destruct (String.eqb n (vf_name f)) eqn:E.
+        -- (* the UDT has f here: an admissible selection without f must be empty *)
+           assert (u = []) as ->.
+           { destruct u as [|x u]; [reflexivity|]. exfalso. cbn [map names_prefix] in P.
+             destruct (String.eqb n (vf_name x)) eqn:Ex; [|discriminate].
+             apply String.eqb_eq in E, Ex. apply Hnot. rewrite <- E, Ex. apply in_map.
+             apply (subseq_In _ _ _ S'). now left. }
+           destruct (IH HN' [] db S' ltac:(rewrite C; reflexivity)) as (g' & G & _).
+           exists (f :: g'). rewrite G. split; [reflexivity|cbn; lia].
+        -- rewrite Am. apply IH; try assumption. now rewrite C, P.
+Qed.
+
+Lemma subseq_names_unique fs : NoDup (map vf_name fs) -> forall u u', subseq u fs -> subseq u' fs ->
+  map vf_name u = map vf_name u' -> u = u'.
+Proof.
+  induction fs as [|f fs IH]; intros HN u u' S S' E.
+  - inversion S; inversion S'; reflexivity.
+  - cbn [map] in HN. inversion HN as [|? ? Hnot HN']; subst.
+    inversion S as [|x t l St|x t l St]; inversion S' as [|x' t' l' St'|x' t' l' St']; subst.
+    + cbn [map] in E. injection E as E. f_equal. now apply IH.
+    + exfalso. destruct u' as [|y u']; [discriminate|]. cbn [map] in E. injection E as E1 _.
+      apply Hnot. rewrite E1. apply in_map. apply (subseq_In _ _ _ St'). now left.
+    + exfalso. destruct u as [|y u]; [discriminate|]. cbn [map] in E. injection E as E1 _.
+      apply Hnot. rewrite <- E1. apply in_map. apply (subseq_In _ _ _ St). now left.
+    + now apply IH.
+Qed.
+
+Lemma find_none' {A} (p : A -> bool) l : (forall x, In x l -> p x = false) -> find p l = None.
+Proof.
+  induction l as [|x l IH]; intros H; [reflexivity|]. cbn [find]. rewrite (H x) by now left.
+  apply IH. intros y Hy. apply H. now right.
+Qed.
+
+Lemma sel_ok_of_gused fs db g : gused fs db = Some g -> ordered_sel_ok fs g db = true.
+Proof.
+  intros H. destruct (gused_sound _ _ _ H) as (S & M & p & rest & P). unfold ordered_sel_ok. rewrite P, andb_true_r.
+  apply forallb_forall. intros f Hf. destruct (vf_am f) eqn:Am; [reflexivity|]. cbn [orb]. apply mem_In.
+  destruct (in_dec string_dec (vf_name f) (map vf_name g)) as [I|N]; [exact I|].
+  exfalso. assert (X : ~ In f g) by (intros X; apply N; now apply in_map). rewrite (M f Hf X) in Am. discriminate.
+Qed.
+
+Lemma doc_ordered_used_gused fs db : NoDup (map vf_name fs) -> doc_ordered_used fs db = gused fs db.
+Proof.
+  intros HN. unfold doc_ordered_used. cbv zeta.
+  set (pred := fun u => ordered_sel_ok fs u db &&
+                        forallb (fun u' => negb (ordered_sel_ok fs u' db) || (List.length u' <=? List.length u)%nat) (subseqs fs)).
+  destruct (gused fs db) as [g|] eqn:G.
+  - destruct (gused_sound _ _ _ G) as (Sg & _ & pg & rg & Pg).
+    assert (Pg' : pred g = true).
+    { unfold pred. rewrite (sel_ok_of_gused _ _ _ G). cbn [andb]. apply forallb_forall. intros u' Hu'.
+      destruct (ordered_sel_ok fs u' db) eqn:OK; [|reflexivity]. cbn [negb orb]. apply Nat.leb_le.
+      destruct (gused_complete fs HN u' db (proj1 (subseqs_spec _ _) Hu') OK) as (g2 & G2 & L). congruence. }
+    destruct (find pred (subseqs fs)) as [u|] eqn:F.
+    + apply find_some in F as [Hu Pu]. unfold pred in Pu. apply andb_true_iff in Pu as [OKu Mu].
+      rewrite forallb_forall in Mu. specialize (Mu g (proj2 (subseqs_spec _ _) Sg)).
+      rewrite (sel_ok_of_gused _ _ _ G) in Mu. cbn [negb orb] in Mu. apply Nat.leb_le in Mu.
+      destruct (gused_complete fs HN u db (proj1 (subseqs_spec _ _) Hu) OKu) as (g2 & G2 & L).
+      assert (g2 = g) by congruence. subst g2.
+      assert (Len : List.length u = List.length g) by lia.
+      f_equal. apply (subseq_names_unique fs HN); [now apply subseqs_spec|assumption|].
+      unfold ordered_sel_ok in OKu. apply andb_true_iff in OKu as [_ Pu].
+      destruct (names_prefix (map vf_name u) db) as [[pu ru]|] eqn:Nu; [|discriminate].
+      destruct (names_prefix_some _ _ _ _ Nu) as [Eu _]. destruct (names_prefix_some _ _ _ _ Pg) as [Eg _].
+      rewrite Eu, Eg, !map_length, Len. reflexivity.
+    + exfalso. pose proof (find_none _ _ F g (proj2 (subseqs_spec _ _) Sg)) as X. cbv beta in X. congruence.
+  - apply find_none'. intros u Hu. unfold pred. destruct (ordered_sel_ok fs u db) eqn:OK; [|reflexivity].
+    destruct (gused_complete fs HN u db (proj1 (subseqs_spec _ _) Hu) OK) as (g2 & G2 & _). congruence.
+Qed.
+
+Lemma svo_am fs : forall db,
+  outcome_of (svo' false fs db) =
+  match gused fs db with
+  | None => Reject
+  | Some used =>
+      match names_prefix (map vf_name used) db with
+      | None => Reject
+      | Some (p, rest) => match all_some (map ser_pair (combine used p)) with
+                          | Some cs => Accept (cs, rest)
+                          | None => Reject
+                          end
+      end
+  end.
+Proof.
+  induction fs as [|f fs IH]; intros db; [reflexivity|]. cbn [svo' gused orb].
+  destruct db as [|[n ty] db].
+  - destruct (vf_am f); cbn [negb]; [apply IH|reflexivity].
+  - destruct (String.eqb n (vf_name f)) eqn:E.
+    + specialize (IH db). destruct (gused fs db) as [g|]; cbn [option_map].
+      * cbn [map names_prefix]. rewrite E.
+        destruct (names_prefix (map vf_name g) db) as [[p rest]|].
+        -- cbn [combine map all_some]. unfold ser_pair at 1. cbn [fst snd].
+           destruct (ser_field (vf_ty f) (vf_val f) ty) as [cl|]; [|reflexivity].
+           destruct (svo' false fs db) as [[cs r]|e]; cbn [outcome_of] in *.
+           ++ destruct (all_some (map ser_pair (combine g p))); [|discriminate]. now injection IH as -> ->.
+           ++ destruct (all_some (map ser_pair (combine g p))); [discriminate|reflexivity].
+        -- destruct (ser_field (vf_ty f) (vf_val f) ty) as [cl|]; [|reflexivity].
+           destruct (svo' false fs db) as [[cs r]|e]; cbn [outcome_of] in *; [discriminate|reflexivity].
+      * destruct (ser_field (vf_ty f) (vf_val f) ty) as [cl|]; [|reflexivity].
+        destruct (svo' false fs db) as [[cs r]|e]; cbn [outcome_of] in *; [discriminate|reflexivity].
+    + destruct (vf_am f); cbn [negb]; [apply IH|reflexivity].
+Qed.
+
+Lemma doc_ser_value_ordered_am_eq d db : doc_ser_value_ordered_am d db =
+  match doc_ordered_used (nonskipped (vd_fields d)) db with
+  | None => Reject
+  | Some used =>
+      match names_prefix (map vf_name used) db with
+      | None => Reject
+      | Some (p, rest) =>
+          if vd_forbid d && negb (is_nil rest) then Reject
+          else match all_some (map ser_pair (combine used p)) with
+               | Some cs => Accept cs
+               | None => Reject
+               end
+      end
+  end.
+Proof. reflexivity. Qed.
+
+Theorem ser_value_ordered_am_doc d db : vd_snc d = false -> vnodup (vd_fields d) ->
+  outcome_of (gen_ser_value_ordered d db) = doc_ser_value_ordered_am d db.
+Proof.
+  intros Hs Hnd. rewrite doc_ser_value_ordered_am_eq, (doc_ordered_used_gused _ _ Hnd).
+  unfold gen_ser_value_ordered. rewrite Hs, svo_loop_acc.
+  pose proof (svo_am (nonskipped (vd_fields d)) db) as P.
+  destruct (gused (nonskipped (vd_fields d)) db) as [g|].
+  - destruct (names_prefix (map vf_name g) db) as [[p rest]|].
+    + destruct (svo' false _ db) as [[cs r]|e]; cbn [outcome_of] in P.
+      * destruct (all_some (map ser_pair (combine g p))) as [cs'|]; [|discriminate]. injection P as -> ->.
+        cbn [app]. destruct (vd_forbid d); cbn [andb]; [|reflexivity]. destruct rest as [|[n t] rest]; reflexivity.
+      * destruct (all_some (map ser_pair (combine g p))); [discriminate|]. now destruct (vd_forbid d && _).
+    + destruct (svo' false _ db) as [[cs r]|e]; cbn [outcome_of] in P; [discriminate|reflexivity].
+  - destruct (svo' false _ db) as [[cs r]|e]; cbn [outcome_of] in P; [discriminate|reflexivity].
+Qed.
+
+(* type_check *)
+Lemma tvo_am fs : forall idx db,
+  match tvo_loop false idx fs db with Ok rest => Some rest | Err _ => None end =
+  match gused (nonskipped fs) db with
+  | None => None
+  | Some used =>
+      match names_prefix (map vf_name used) db with
+      | None => None
+      | Some (p, rest) => if forallb acc_pair (combine used p) then Some rest else None
+      end
+  end.
+Proof.
+  unfold nonskipped. induction fs as [|f fs IH]; intros idx db; [reflexivity|].
+  cbn [tvo_loop filter]. destruct (vf_skip f); cbn [negb]; [apply IH|]. cbn [gused negb andb].
+  destruct db as [|[n ty] db].
+  - destruct (vf_am f); [apply IH|reflexivity].
+  - rewrite (String.eqb_sym (vf_name f) n). destruct (String.eqb n (vf_name f)) eqn:E; cbn [negb].
+    + specialize (IH (S idx) db). destruct (gused _ db) as [g|]; cbn [option_map].
+      * cbn [map names_prefix]. rewrite E. destruct (names_prefix (map vf_name g) db) as [[p rest]|].
+        -- cbn [combine forallb]. unfold acc_pair at 1. cbn [fst snd].
+           destruct (accepts (vf_ty f) ty); [exact IH|reflexivity].
+        -- destruct (accepts (vf_ty f) ty); [exact IH|reflexivity].
+      * destruct (accepts (vf_ty f) ty); [exact IH|reflexivity].
+    + destruct (vf_am f); [apply IH|reflexivity].
+Qed.
+
+Lemma gused_len fs : forall db g, gused fs db = Some g ->
+  (List.length (filter (fun f => negb (vf_am f)) fs) <= List.length g)%nat /\ (List.length g <= List.length db)%nat.
+Proof.
+  induction fs as [|f fs IH]; intros db g H; cbn [gused] in H.
+  - injection H as <-. cbn. lia.
+  - destruct db as [|[n ty] db].
+    + destruct (vf_am f) eqn:Am; [|discriminate]. cbn [filter]. rewrite Am. cbn [negb]. now apply IH.
+    + destruct (String.eqb n (vf_name f)).
+      * destruct (gused fs db) as [g'|] eqn:G; [|discriminate]. injection H as <-.
+        destruct (IH _ _ G). cbn [filter List.length]. destruct (negb (vf_am f)); cbn [List.length] in *; lia.
+      * destruct (vf_am f) eqn:Am; [|discriminate]. cbn [filter]. rewrite Am. cbn [negb].
+        destruct (IH _ _ H). cbn [List.length] in *. lia.
+Qed.
+
+Lemma doc_typeck_value_ordered_am_eq d db : doc_typeck_value_ordered_am d db =
+  match doc_ordered_used (nonskipped (vd_fields d)) db with
+  | None => false
+  | Some used =>
+      match names_prefix (map vf_name used) db with
+      | None => false
+      | Some (p, rest) => (negb (vd_forbid d) || is_nil rest) && forallb acc_pair (combine used p)
+      end
+  end.
+Proof. reflexivity. Qed.
+
+Theorem typeck_value_ordered_am_doc d db : vd_snc d = false -> vnodup (vd_fields d) ->
+  (gen_typeck_value_ordered d db = Ok tt <-> doc_typeck_value_ordered_am d db = true).
+Proof.
+  intros Hs Hnd. rewrite doc_typeck_value_ordered_am_eq, (doc_ordered_used_gused _ _ Hnd).
+  unfold gen_typeck_value_ordered. rewrite Hs. cbv zeta.
+  pose proof (tvo_am (vd_fields d) O db) as P.
+  assert (Req : List.length (filter vf_required (vd_fields d))
+                = List.length (filter (fun f => negb (vf_am f)) (nonskipped (vd_fields d)))).
+  { unfold nonskipped, vf_required. clear. induction (vd_fields d) as [|f l IH]; [reflexivity|].
+    cbn [filter]. destruct (vf_skip f); cbn [negb andb]; [exact IH|].
+    cbn [filter]. destruct (negb (vf_am f)); cbn [List.length]; now rewrite IH. }
+  destruct (gused (nonskipped (vd_fields d)) db) as [g|] eqn:G.
+  - destruct (gused_len _ _ _ G) as [L1 L2].
+    assert (Pre : (List.length db <? List.length (filter vf_required (vd_fields d)))%nat = false)
+      by (apply Nat.ltb_ge; lia).
+    rewrite Pre. destruct (names_prefix (map vf_name g) db) as [[p rest]|].
+    + destruct (tvo_loop false 0 (vd_fields d) db) as [r|e].
+      * destruct (forallb acc_pair (combine g p)); [|discriminate]. injection P as ->. rewrite andb_true_r.
+        destruct (vd_forbid d); cbn [negb orb]; [|tauto].
+        destruct rest as [|[n t] rest]; cbn [is_nil]; split; congruence.
+      * destruct (forallb acc_pair (combine g p)); [discriminate|]. rewrite andb_false_r. split; discriminate.
+    + destruct (tvo_loop false 0 (vd_fields d) db); [discriminate|]. split; discriminate.
+  - destruct (List.length db <? _)%nat; [split; discriminate|].
+    destruct (tvo_loop false 0 (vd_fields d) db); [discriminate|]. split; discriminate.
+Qed.
+
+(* deserialize *)
+Lemma gused_names fs : forall db g, gused fs db = Some g ->
+  map vf_name g = map fst (firstn (List.length g) db).
+Proof.
+  intros db g H. destruct (gused_sound _ _ _ H) as (_ & _ & p & rest & P).
+  destruct (names_prefix_some _ _ _ _ P) as [E _]. now rewrite map_length in E.
+Qed.
+
+Lemma seq_cons_outcome (x : cell) (r : result err (list cell)) (o : option (list cell)) :
+  outcome_of r = match o with Some vs => Accept vs | None => Reject end -> r <> Err EPanic ->
+  outcome_of (match r with Err e => Err e | Ok xs => Ok (x :: xs) end) =
+    match (match o with Some xs => Some (x :: xs) | None => None end) with Some vs => Accept vs | None => Reject end /\
+  (match r with Err e => Err e | Ok xs => Ok (x :: xs) end) <> Err EPanic.
+Proof.
+  intros H1 H2. destruct r as [xs|e], o as [ys|]; cbn [outcome_of] in *; try discriminate.
+  - injection H1 as ->. split; [reflexivity|discriminate].
+  - split; [reflexivity|]. congruence.
+Qed.
+
+Lemma dvo_am fs : vnodup fs -> forall its g, gused (nonskipped fs) (map fst its) = Some g ->
+  outcome_of (dvo_loop false fs its) =
+    match all_some (map (fun f => doc_field_value_m f (firstn (List.length g) its)) fs) with
+    | Some vs => Accept vs
+    | None => Reject
+    end /\
+  dvo_loop false fs its <> Err EPanic.
+Proof.
+  unfold nonskipped. induction fs as [|f fs IH]; intros Hnd its g G; [split; [reflexivity|discriminate]|].
+  cbn [dvo_loop map all_some filter] in *. unfold doc_field_value_m at 1.
+  destruct (vf_skip f) eqn:Sf; cbn [negb] in G.
+  - destruct (IH (vnodup_tail _ _ Hnd) its g G) as [I1 I2]. now apply seq_cons_outcome.
+  - assert (Other : forall h, In h fs -> vf_skip h = false -> String.eqb (vf_name f) (vf_name h) = false).
+    { intros h Hh Sh. destruct (String.eqb (vf_name f) (vf_name h)) eqn:E; [|reflexivity].
+      assert (B : vbound (vf_name h) f = true) by (unfold vbound; now rewrite Sf, E).
+      pose proof (vnodup_head_unique f fs _ Hnd B h Hh) as X. unfold vbound in X.
+      rewrite Sh, String.eqb_refl in X. discriminate. }
+    assert (Absent : forall g0 its0, gused (filter (fun f0 => negb (vf_skip f0)) fs) (map fst its0) = Some g0 ->
+                     db_cell (vf_name f) (firstn (List.length g0) its0) = None).
+    { intros g0 its0 G0. apply db_cell_none. apply not_true_is_false. intros M. apply mem_In in M.
+      rewrite <- firstn_map, <- (gused_names _ _ _ G0) in M.
+      destruct (gused_sound _ _ _ G0) as (S0 & _). apply in_map_iff in M as (h & Eh & Hh).
+      pose proof (subseq_In _ _ _ S0 Hh) as Hf. apply filter_In in Hf as [Hf Sh]. apply negb_true_iff in Sh.
+      pose proof (Other h Hf Sh) as X. rewrite Eh, String.eqb_refl in X. discriminate. }
+    cbn [gused] in G. destruct its as [|[[n ty] v] its].
+    + cbn [map] in G. destruct (vf_am f) eqn:Am; [|discriminate].
+      erewrite Absent by exact G. destruct (IH (vnodup_tail _ _ Hnd) [] g G) as [I1 I2]. now apply seq_cons_outcome.
+    + cbn [map fst orb] in G. rewrite (String.eqb_sym (vf_name f) n). cbn [orb].
+      destruct (String.eqb n (vf_name f)) eqn:E.
+      * destruct (gused _ (map fst its)) as [g'|] eqn:G'; [|discriminate]. injection G as <-.
+        cbn [List.length firstn db_cell]. rewrite E.
+        rewrite (map_ext_in _ (fun h => doc_field_value_m h (firstn (List.length g') its))).
+        2:{ intros h Hh. unfold doc_field_value_m. destruct (vf_skip h) eqn:Sh; [reflexivity|].
+            cbn [db_cell]. apply String.eqb_eq in E. subst n. now rewrite (Other h Hh Sh). }
+        destruct (deser_with_default f v) as [x|]; [|split; [reflexivity|discriminate]].
+        destruct (IH (vnodup_tail _ _ Hnd) its g' G') as [I1 I2]. now apply seq_cons_outcome.
+      * destruct (vf_am f) eqn:Am; [|discriminate]. erewrite Absent by exact G.
+        destruct (IH (vnodup_tail _ _ Hnd) (((n, ty), v) :: its) g G) as [I1 I2]. now apply seq_cons_outcome.
+Qed.
+
+Theorem deser_value_ordered_am_doc d db cells : vd_snc d = false -> vnodup (vd_fields d) ->
+  doc_typeck_value_ordered_am d db = true ->
+  outcome_of (gen_deser_value_ordered d db cells) = doc_deser_value_ordered_am d db cells /\
+  gen_deser_value_ordered d db cells <> Err EPanic.
+Proof.
+  intros Hs Hnd T. unfold doc_deser_value_ordered_am. rewrite T.
+  rewrite doc_typeck_value_ordered_am_eq in T. rewrite (doc_ordered_used_gused _ _ Hnd) in *.
+  destruct (gused (nonskipped (vd_fields d)) db) as [g|] eqn:G; [|discriminate].
+  unfold gen_deser_value_ordered. rewrite Hs.
+  assert (G' : gused (nonskipped (vd_fields d)) (map fst (udt_items db cells)) = Some g) by now rewrite udt_items_fst.
+  destruct (dvo_am _ Hnd _ _ G') as [D1 D2]. split; [|assumption]. rewrite D1.
+  assert (E : firstn (List.length g) (udt_items db cells) = spec_items (firstn (List.length g) db) cells).
+  { rewrite spec_items_udt. clear. revert db cells. induction (List.length g) as [|k IH]; intros db cells; [reflexivity|].
+    destruct db as [|c db]; [reflexivity|]. destruct cells as [|v cells]; cbn [udt_items firstn]; f_equal; apply IH. }
+  rewrite E. now rewrite (map_ext _ _ (fun f => doc_field_value_eq f (spec_items (firstn (List.length g) db) cells))).
 Qed.
